@@ -235,7 +235,7 @@ func c17Store(c *core.Ctx, ctl *sched.Controller, only *storeCase) {
 			// (2) separate gateways: every interleaving (two processes) or a seeded sample of them
 			o := tlc.Opts{Module: "IamStore", CfgText: storeCfg(scn, false, 0, true, true, false), Workers: 1}
 			if len(storeScenarios[scn]) > 2 {
-				o.Simulate = fmt.Sprintf("num=%d", c.Pick(80, 1500))
+				o.Simulate = fmt.Sprintf("num=%d", c.Pick(80, 800))
 				o.Depth = 60
 				o.Seed = c.Seed + 17
 			}
@@ -264,7 +264,7 @@ func c17Store(c *core.Ctx, ctl *sched.Controller, only *storeCase) {
 			rng := rand.New(rand.NewSource(c.Seed))
 			rng.Shuffle(len(behs), func(i, j int) { behs[i], behs[j] = behs[j], behs[i] })
 			sort.SliceStable(behs, func(i, j int) bool { return storeHarm(behs[i]) > storeHarm(behs[j]) })
-			if max := c.Pick(60, 1200); len(behs) > max {
+			if max := c.Pick(60, 600); len(behs) > max {
 				behs = behs[:max]
 			}
 		}
@@ -276,7 +276,7 @@ func c17Store(c *core.Ctx, ctl *sched.Controller, only *storeCase) {
 				}
 				if only == nil && mode == "one-gateway" {
 					// the schedules that do harm between gateways, and a few of the others
-					if none >= c.Pick(12, 200) || (storeHarm(b) == 0 && none >= c.Pick(4, 50)) {
+					if none >= c.Pick(12, 120) || (storeHarm(b) == 0 && none >= c.Pick(4, 40)) {
 						continue
 					}
 					none++
@@ -359,6 +359,33 @@ func c17Store(c *core.Ctx, ctl *sched.Controller, only *storeCase) {
 			}
 		}
 		c.Logf("iamstore %s: %d interleavings forced (separate gateways: %d lose an acknowledged mutation and %d expose a torn image, as the model predicts; %d differ from the model); within one gateway none may", scn, len(behs), nlost, ncorrupt, nd)
+	}
+}
+
+// storeObservations records (never judges) what TLC finds beyond C17's statement: the same
+// invariants for separate gateways on shared storage, and for one gateway with a crash +
+// restart between two file-system steps.
+func storeObservations(c *core.Ctx) {
+	for _, o := range []struct {
+		name    string
+		same    bool
+		crashes int
+		scn     string
+	}{{"separate gateways, two mutations", false, 0, "two_mut"}, {"separate gateways, mutation + refused mutation (error path in two steps)", false, 0, "mut_refused"},
+		{"one gateway, two mutations, one crash + restart", true, 1, "two_mut"}} {
+		res, err := tlc.Run(c.Scratch, tlc.Opts{Module: "IamStore", CfgText: storeCfg(o.scn, o.same, o.crashes, false, false, true), Workers: 2})
+		if err != nil {
+			continue
+		}
+		c.States += res.Distinct
+		c.Transitions += res.Generated
+		v := res.Violated
+		if v == "" {
+			v = "none"
+		}
+		c.TLCRuns = append(c.TLCRuns, res.Summary("IamStore", o.name+" (observation, beyond C17): invariant violated = "+v))
+		c.Extra["iamstore_observation: "+o.name] = "invariant violated: " + v
+		res.Cleanup()
 	}
 }
 
